@@ -408,15 +408,18 @@ pub(crate) fn validate_channelmodes<'a>(
     })
 }
 
-fn starts_single_wilcards<'a>(pattern: &'a str, text: &'a str) -> bool {
-    if pattern.len() <= text.len() {
-        pattern
-            .bytes()
-            .enumerate()
-            .all(|(i, c)| c == b'?' || c == text.as_bytes()[i])
-    } else {
-        false
+// check whether text starts with pattern ('?' matches any single character).
+// returns length (in bytes) of matched part of the text.
+fn starts_single_wilcards<'a>(pattern: &'a str, text: &'a str) -> Option<usize> {
+    let mut text_chars = text.chars();
+    let mut matched_len = 0;
+    for pc in pattern.chars() {
+        match text_chars.next() {
+            Some(tc) if pc == '?' || pc == tc => matched_len += tc.len_utf8(),
+            _ => return None,
+        }
     }
+    Some(matched_len)
 }
 
 pub(crate) fn match_wildcard<'a>(pattern: &'a str, text: &'a str) -> bool {
@@ -433,27 +436,32 @@ pub(crate) fn match_wildcard<'a>(pattern: &'a str, text: &'a str) -> bool {
         if !m.is_empty() {
             if !asterisk {
                 // if first match
-                if !starts_single_wilcards(m, t) {
+                if let Some(len) = starts_single_wilcards(m, t) {
+                    t = &t[len..];
+                } else {
                     return false;
                 }
-                t = &t[m.len()..];
             } else if cur_ast || !newpat.is_empty() {
                 // after asterisk. only if some rest in pattern and
                 // if last current character is asterisk
-                let mut i = 0;
-                // find first single wildcards occurrence.
-                while i <= t.len() - m.len() && !starts_single_wilcards(m, &t[i..]) {
-                    i += 1;
-                }
-                if i <= t.len() - m.len() {
+                // find first single wildcards occurrence (at character boundaries).
+                let found = t
+                    .char_indices()
+                    .find_map(|(i, _)| starts_single_wilcards(m, &t[i..]).map(|len| i + len));
+                if let Some(end) = found {
                     // if found
-                    t = &t[i + m.len()..];
+                    t = &t[end..];
                 } else {
                     return false;
                 }
             } else {
-                // if last pattern is not asterisk
-                if !starts_single_wilcards(m, &t[t.len() - m.len()..]) {
+                // if last pattern is not asterisk - match with last characters of text
+                let m_count = m.chars().count();
+                if let Some((i, _)) = t.char_indices().rev().nth(m_count - 1) {
+                    if starts_single_wilcards(m, &t[i..]).is_none() {
+                        return false;
+                    }
+                } else {
                     return false;
                 }
                 t = &t[t.len()..t.len()];
